@@ -152,6 +152,27 @@ def run(chk):
         exprs.append(f"ctl_query {d2} {hist_lit(hist)} {float_lit(dt)} {float_lit(start)} {coq_list([zlit(s) for s in steps])}")
         expected.append(exp)
         meta.append({"kind": "get_controls", "d": d, "dt": dt, "start": start, "hist": [(k, p) for k, p, _ in hist]})
+        # the SAME Control object asked again on another time grid (other start time / time step: a scan, a refined grid): the model's
+        # answers for that grid (exact), i.e. what a freshly built Control says
+        if i % 2 == 0:
+            dt2, start2 = rng.choice([x for x in DTS if x != dt] or DTS), rng.choice([x for x in STARTS if x != start] or STARTS)
+            exp2 = []
+            for s in steps:
+                pre, post = quiet(ctrl.get_controls, s, dt=dt2, start_time=start2)
+                exp2 += optflat(pre) + optflat(post)
+            fresh = build_control(d, hist)
+            exp2f = []
+            for s in steps:
+                pre, post = quiet(fresh.get_controls, s, dt=dt2, start_time=start2)
+                exp2f += optflat(pre) + optflat(post)
+            chk.search_cases += 1
+            if exp2 != exp2f:
+                chk.fail("control-reused-on-another-grid", f"Control.get_controls on an object already asked for (dt={dt}, start_time={start}) and now for "
+                         f"(dt={dt2}, start_time={start2}) answers differently from a freshly built equal Control",
+                         {"api": "Control.get_controls", "hist": repr(hist), "first": [dt, start], "second": [dt2, start2]})
+            exprs.append(f"ctl_query {d2} {hist_lit(hist)} {float_lit(dt2)} {float_lit(start2)} {coq_list([zlit(s) for s in steps])}")
+            expected.append(exp2)
+            meta.append({"kind": "get_controls", "d": d, "dt": dt2, "start": start2, "hist": [(k, p) for k, p, _ in hist], "asked_before_on": [dt, start]})
         chk.count("ctl_" + mode)
         chk.case(meta[-1], ("ctl", mode, len(hist), d))
 
